@@ -240,7 +240,7 @@ func runC12Case(c *Ctx, kind string, optSets []int, input []rune) {
 }
 
 // inputs longer than this are checked by the direct oracles only (the model driver is not run on them)
-const modelMaxInput = 20000
+const modelMaxInput = 5000
 
 var allOpts = func() []int {
 	a := make([]int, 128)
